@@ -1,9 +1,16 @@
 package props
 
 import (
+	"bytes"
 	"fmt"
+	"os"
 	"path/filepath"
 	"strings"
+	"time"
+
+	"github.com/ProtonMail/go-crypto/openpgp"
+	"github.com/ProtonMail/go-crypto/openpgp/armor"
+	"github.com/ProtonMail/go-crypto/openpgp/packet"
 
 	"github.com/goreleaser/nfpm/v2"
 	"verif/harness/internal/report"
@@ -132,4 +139,85 @@ func parseWithMap(y string, env map[string]string) (*nfpm.Config, error) {
 		return nil, err
 	}
 	return &cfg, nil
+}
+
+// c10RotatedSubkeys: a protected key with TWO signing sub keys (the picture after a sub key rotation), generated here;
+// key_id may name the primary, the older or the newer sub key – the package is signed, by that key.
+func c10RotatedSubkeys(c *Ctx) {
+	fam := c.Rep.Family("rotated-signing-subkeys", "exhaustive: a passphrase-protected OpenPGP key generated by the harness with two signing sub keys x key_id in {primary, older sub key, newer sub key} x {deb debsign, rpm}: the package must be built and every signature in it issued by the key the id names; non-trivial = always")
+	fam.Exhaustive = true
+	tree, err := MkTree(filepath.Join(c.Tmp, "src-rotated"), 0)
+	if err != nil {
+		c.Rep.Note("rotated-signing-subkeys: %v", err)
+		return
+	}
+	cfgp := &packet.Config{RSABits: 2048, Time: func() time.Time { return time.Unix(1600000000, 0) }}
+	e, err := openpgp.NewEntity("Verif Rotated", "", "rotated@example.com", cfgp)
+	if err != nil {
+		c.Rep.Note("rotated-signing-subkeys: %v", err)
+		return
+	}
+	for i := 0; i < 2; i++ {
+		cfgp.Time = func() time.Time { return time.Unix(1600000000+int64(i+1)*86400, 0) }
+		if err := e.AddSigningSubkey(cfgp); err != nil {
+			c.Rep.Note("rotated-signing-subkeys: %v", err)
+			return
+		}
+	}
+	const pass = "rotated-pass"
+	if err := e.PrivateKey.Encrypt([]byte(pass)); err != nil {
+		c.Rep.Note("rotated-signing-subkeys: %v", err)
+		return
+	}
+	var ids []string
+	ids = append(ids, fmt.Sprintf("%016x", e.PrimaryKey.KeyId))
+	for i := range e.Subkeys {
+		if e.Subkeys[i].PrivateKey != nil {
+			if err := e.Subkeys[i].PrivateKey.Encrypt([]byte(pass)); err != nil {
+				c.Rep.Note("rotated-signing-subkeys: %v", err)
+				return
+			}
+		}
+		if e.Subkeys[i].Sig != nil && e.Subkeys[i].Sig.FlagsValid && e.Subkeys[i].Sig.FlagSign {
+			ids = append(ids, fmt.Sprintf("%016x", e.Subkeys[i].PublicKey.KeyId))
+		}
+	}
+	keyDir := filepath.Join(c.Tmp, "rotated-keys")
+	_ = os.MkdirAll(keyDir, 0o755)
+	var buf bytes.Buffer
+	w, err := armor.Encode(&buf, openpgp.PrivateKeyType, nil)
+	if err == nil {
+		err = e.SerializePrivateWithoutSigning(w, nil)
+		_ = w.Close()
+	}
+	if err != nil {
+		c.Rep.Note("rotated-signing-subkeys: %v", err)
+		return
+	}
+	if err := os.WriteFile(filepath.Join(keyDir, "rotated.asc"), buf.Bytes(), 0o600); err != nil {
+		return
+	}
+	for _, id := range ids {
+		k := c12SignedCfg{Label: "rotated", KeyFile: "rotated.asc", Pass: pass, KeyID: id}
+		y := c12SignedYAML(tree, k, keyDir, "debsign")
+		for _, f := range []string{"deb", "rpm"} {
+			cfg, err := c12SignedParse(y, pass)
+			if err != nil {
+				c.Rep.Note("rotated-signing-subkeys: %v", err)
+				return
+			}
+			view := c12SignedView(f, isoPackage(cfg, f))
+			fam.Eval(f+"|"+id, true)
+			in := map[string]any{"format": f, "key": "generated: primary + two signing sub keys, protected", "key_ids": ids, "key_id": id}
+			if strings.HasPrefix(view, "error") || strings.HasPrefix(view, "undecodable") || view == "no signature member" || strings.Contains(view, ":absent") {
+				c.Rep.Find(report.Finding{Property: "C10", Family: "rotated-signing-subkeys", Shape: f + ":configured-key-id-cannot-sign",
+					What: fmt.Sprintf("key_id %s names a signing key of the file and the passphrase is right; the %s build: %s", id, f, view), Input: in})
+				continue
+			}
+			if !strings.Contains(view, "issuer:"+id) {
+				c.Rep.Find(report.Finding{Property: "C10", Family: "rotated-signing-subkeys", Shape: f + ":signed-by-another-key-than-configured",
+					What: fmt.Sprintf("key_id %s is configured; the %s package carries %s", id, f, view), Input: in})
+			}
+		}
+	}
 }
